@@ -1931,3 +1931,149 @@ func rulePackageWalksRecurseThroughImportsOnly(c *core.Ctx) {
 		c.Undecided(rule, "anchor/recursive package walks", 0, "none found")
 	}
 }
+
+func init() {
+	reg("C19", ruleNodeMemosKeyedByNode)
+	reg("C09", ruleNodeMemosKeyedByNode)
+}
+
+// ---------------------------------------------------------------------------------------------------------------
+// MK2: a memo of rewritten nodes that lives in a context struct (and therefore travels with the traversal, across
+// records and definitions) is keyed by the node, not by the node's Name. Names of fields, computed fields and steps
+// are unique inside their parent only; a context that is copied for a foreign record (`pixel.scaled` resolves a
+// computed field of another record through a copy of the scope that shares the map) then answers a lookup for this
+// record's `scaled` with the other record's.
+// ---------------------------------------------------------------------------------------------------------------
+func ruleNodeMemosKeyedByNode(c *core.Ctx) {
+	const rule = "MK2"
+	c.Rule(rule, "pkg/dsl: a map held in a struct field whose values are pointers to a node type N (Field, ComputedField, ProtocolStep, …) is not indexed by `x.Name` with x of type *N: such names are unique within their parent only", 1)
+	p := c.Pkg("pkg/dsl")
+	if p == nil {
+		c.Undecided(rule, "anchor/pkg/dsl", 0, "package not found")
+		return
+	}
+	info := p.TypesInfo
+	n := 0
+	seen := map[string]bool{}
+	for _, d := range c.AllDecls() {
+		if c.DeclPkg(d) != p || d.Body == nil || c.IsTestFile(d.Pos()) {
+			continue
+		}
+		ast.Inspect(d.Body, func(m ast.Node) bool {
+			ix, ok := m.(*ast.IndexExpr)
+			if !ok {
+				return true
+			}
+			se, ok := ast.Unparen(ix.X).(*ast.SelectorExpr)
+			if !ok {
+				return true
+			}
+			sel := info.Selections[se]
+			if sel == nil || sel.Kind() != types.FieldVal {
+				return true
+			}
+			mt, ok := derefType(info.TypeOf(ix.X)).Underlying().(*types.Map)
+			if !ok {
+				return true
+			}
+			vp, ok := mt.Elem().(*types.Pointer)
+			if !ok {
+				return true
+			}
+			vn := core.NamedOf(vp.Elem())
+			if vn == nil || vn.Obj().Pkg() != p.Types {
+				return true
+			}
+			if _, isStruct := vn.Underlying().(*types.Struct); !isStruct {
+				return true
+			}
+			key := fmt.Sprintf("%s/%s[…]", c.FuncName(d), types.ExprString(ix.X))
+			if seen[key] {
+				return true
+			}
+			bad := false
+			if ks, ok := ast.Unparen(ix.Index).(*ast.SelectorExpr); ok && ks.Sel.Name == "Name" {
+				if kn := core.NamedOf(derefType(info.TypeOf(ks.X))); kn != nil && kn.Obj() == vn.Obj() {
+					bad = true
+				}
+			}
+			if !bad {
+				seen[key] = true
+			}
+			n++
+			c.Check(!bad, rule, key, ix.Pos(), "keyed by the node (or by something other than the node's own name)",
+				"`"+types.ExprString(ix)+"`: a memo of *"+vn.Obj().Name()+" nodes that travels in a context struct is keyed by the node's Name. The name is unique within its record / protocol only; where the context is copied for another parent (a member access into another record's computed field shares the map) the lookup returns the other parent's node — its expression and type are used for this one, in every back end")
+			return true
+		})
+	}
+	if n == 0 {
+		c.Undecided(rule, "anchor/node memos", 0, "no map of node pointers held in a struct field is indexed in pkg/dsl")
+	}
+}
+
+func init() {
+	reg("C18", ruleConfigRoundTripDecodesIntoTheLoadedObject)
+	reg("C11", ruleConfigRoundTripDecodesIntoTheLoadedObject)
+}
+
+// ---------------------------------------------------------------------------------------------------------------
+// KU1: the `--config` overrides go through a koanf round trip: the package description is loaded from the struct
+// (structs.Provider(x, "yaml")), keys are set, and the result is unmarshalled back. Fields tagged `yaml:"-"` — the
+// FilePath of EVERY PackageInfo in the import tree, the Package pointers of the versions — are not part of the round
+// trip; they survive only because the result is decoded into the very object that was loaded (mapstructure fills
+// the existing pointers). Decoding into a fresh value gives imported packages an empty FilePath: their directory
+// becomes "." and the root's own model files are parsed again under the imported namespace's name.
+// ---------------------------------------------------------------------------------------------------------------
+func ruleConfigRoundTripDecodesIntoTheLoadedObject(c *core.Ctx) {
+	const rule = "KU1"
+	c.Rule(rule, "internal/cmd: in a function that loads a struct into koanf (structs.Provider(x, …)) and unmarshals the result, the unmarshal target is the same variable x", 1)
+	n := 0
+	for _, d := range c.AllDecls() {
+		p := c.DeclPkg(d)
+		if p == nil || d.Body == nil || c.IsTestFile(d.Pos()) || !strings.HasSuffix(p.PkgPath, "/internal/cmd") {
+			continue
+		}
+		info := p.TypesInfo
+		var loaded []types.Object
+		var targets []ast.Expr
+		ast.Inspect(d.Body, func(m ast.Node) bool {
+			ce, ok := m.(*ast.CallExpr)
+			if !ok {
+				return true
+			}
+			fn, _ := typeutil.Callee(info, ce).(*types.Func)
+			if fn == nil || fn.Pkg() == nil {
+				return true
+			}
+			if fn.Name() == "Provider" && strings.HasSuffix(fn.Pkg().Path(), "/providers/structs") && len(ce.Args) > 0 {
+				if o := identObj(info, ast.Unparen(ce.Args[0])); o != nil {
+					loaded = append(loaded, o)
+				}
+			}
+			if strings.HasPrefix(fn.Name(), "Unmarshal") && strings.Contains(fn.Pkg().Path(), "knadh/koanf") && len(ce.Args) >= 2 {
+				targets = append(targets, ce.Args[1])
+			}
+			return true
+		})
+		if len(loaded) == 0 || len(targets) == 0 {
+			continue
+		}
+		for i, t := range targets {
+			n++
+			same := false
+			e := ast.Unparen(t)
+			if o := identObj(info, e); o != nil {
+				for _, l := range loaded {
+					if l == o {
+						same = true
+					}
+				}
+			}
+			c.Check(same, rule, fmt.Sprintf("%s/unmarshal target#%d", c.FuncName(d), i+1), t.Pos(), "decoded into the object that was loaded",
+				"the koanf round trip is decoded into `"+types.ExprString(t)+"`, not into the object that was loaded: everything tagged `yaml:\"-\"` (the FilePath of every package in the import tree, the version packages) is lost — with any `-c key=value` on the command line an imported package's directory becomes \".\" and the root's model files are parsed under the imported namespace")
+		}
+	}
+	if n == 0 {
+		c.Undecided(rule, "anchor/koanf round trip", 0, "no function of internal/cmd loads a struct into koanf and unmarshals it")
+	}
+}
